@@ -87,7 +87,10 @@ ParseOK(body) == \A k \in 1..Len(body):
 
 \* ===================================================================== machine state
 \* ni: the number of module instances that existed when the frame reached its current statement
-Frame(i) == [o |-> i, pc |-> 1, it |-> 0, vals |-> <<>>, skip |-> {}, ni |-> i]
+\* skip: modules the current statement asked for that are NOT AVAILABLE (no file, does not parse); bad: modules that
+\* exist but whose import FAILED (their body raised, or they are being imported already: a cycle).  A from-import
+\* falls back to an attribute of the parent only for the former; the latter ends the statement with the error.
+Frame(i) == [o |-> i, pc |-> 1, it |-> 0, vals |-> <<>>, skip |-> {}, bad |-> {}, ni |-> i]
 \* module names are sequences of segment STRINGS (CleanR works on code point tuples):
 RECURSIVE CleanN(_, _, _, _)
 CleanN(T, k, up, acc) ==
@@ -134,7 +137,8 @@ Start(w, s, T) ==
             !.stack = Append(@, Frame(i))]
 
 Refuse(s, T, e) == LET f == Top(s) IN
-  SetTop([s EXCEPT !.lasterr = e], [f EXCEPT !.skip = @ \cup {T}])
+  IF e = "cycle" THEN SetTop([s EXCEPT !.lasterr = e], [f EXCEPT !.bad = @ \cup {T}])
+  ELSE SetTop([s EXCEPT !.lasterr = e], [f EXCEPT !.skip = @ \cup {T}])
 
 \* importModule(T) for a module that is not cached
 Attempt(w, s, T) ==
@@ -162,14 +166,14 @@ Fail(s, e) ==
                            !.fails = Ext(@, T, Count(@, T) + 1),
                            !.lasterr = e]
            c == Top(s1)
-       IN SetTop(s1, [c EXCEPT !.skip = @ \cup {T}])
+       IN SetTop(s1, [c EXCEPT !.bad = @ \cup {T}])
 
 Unknown(s) == [s EXCEPT !.status = "unknown", !.stack = <<>>]
 
 EnvOf(s, i) == s.insts[i].env
 SetVar(s, i, v, val) == [s EXCEPT !.insts = [@ EXCEPT ![i] = [@ EXCEPT !.env = Ext(@, v, val)]]]
 Advance(s) == LET f == Top(s) IN
-  SetTop(s, [f EXCEPT !.pc = @ + 1, !.it = 0, !.vals = <<>>, !.skip = {}, !.ni = Len(s.insts)])
+  SetTop(s, [f EXCEPT !.pc = @ + 1, !.it = 0, !.vals = <<>>, !.skip = {}, !.bad = {}, !.ni = Len(s.insts)])
 Used(s, T) == [s EXCEPT !.uses = Ext(@, T, Count(@, T) + 1)]
 
 \* the module the current statement wants to load next (<<>> if none)
@@ -179,13 +183,14 @@ Want(w, s) ==
   IN IF f.pc > Len(B) THEN <<>>
      ELSE LET st == B[f.pc] IN
        IF st.k \in {"imp", "fimp", "sfimp"}
-       THEN IF st.tgt \in DOMAIN s.modules \/ st.tgt \in f.skip THEN <<>> ELSE st.tgt
+       THEN IF st.tgt \in DOMAIN s.modules \/ st.tgt \in f.skip \cup f.bad THEN <<>> ELSE st.tgt
        ELSE IF st.k = "from"
        THEN LET it == IF f.it = 0 THEN Len(st.items) ELSE f.it
                 sub == Append(st.tgt, st.items[it].n)
             IN IF sub \in DOMAIN s.modules THEN <<>>
+               ELSE IF sub \in f.bad THEN <<>>
                ELSE IF sub \notin f.skip THEN sub
-               ELSE IF st.tgt \in DOMAIN s.modules \/ st.tgt \in f.skip THEN <<>>
+               ELSE IF st.tgt \in DOMAIN s.modules \/ st.tgt \in f.skip \cup f.bad THEN <<>>
                ELSE st.tgt
        ELSE <<>>
 
@@ -229,8 +234,9 @@ ExecFrom(s, st) ==
       Resolved(s1, v) ==
         LET vals2 == <<v>> \o f.vals IN
         IF it = 1 THEN Advance(BindAll(s1, f.o, st.items, vals2, 1))
-        ELSE SetTop(s1, [f EXCEPT !.it = it - 1, !.vals = vals2, !.skip = {}])
+        ELSE SetTop(s1, [f EXCEPT !.it = it - 1, !.vals = vals2, !.skip = {}, !.bad = {}])
   IN IF sub \in DOMAIN s.modules THEN Resolved(Used(s, sub), ModV(s.modules[sub]))
+     ELSE IF sub \in f.bad THEN Fail(s, s.lasterr)      \* the name IS a module, and importing it failed
      ELSE IF st.tgt \in DOMAIN s.modules
      THEN LET env == EnvOf(s, s.modules[st.tgt]) IN
           IF st.items[it].n \in DOMAIN env
